@@ -13,6 +13,9 @@ import (
 var itemSep string
 var kvSep string
 
+// paramNameChars lists every character used by a parameter name or flag (c b a sp sr sl sb dp dr dm dl dif S V p m l r)
+const paramNameChars = "abcdfilmprsSV"
+
 const (
 	fuseGlobalsEnvVar  = "dm_fuse_opts"
 	bundleEnvVarPrefix = "dm_fuse_bd_"
@@ -290,6 +293,8 @@ func setSeparators(paramsStruct interface{}) error {
 	if err != nil {
 		return err
 	}
+	// parameter names and flags are part of the encoded string as well: a separator must not occur in them either
+	stringVals = append(stringVals, paramNameChars)
 	invalidSeps, err := mergeAndUniqifyRunes(stringVals...)
 	if err != nil {
 		return err
